@@ -348,6 +348,7 @@ def run(ctx):
     user_defined_mapping(ctx)
     prescan_byte_sets(ctx)
     prescan_meta_table(ctx)
+    decoder_end_of_input(ctx)
     # C06.15: the content= extraction returns "nothing" or a label; an exception leaving it would be taken by getEncoding's
     # bracket for the end of the buffer and end the whole pre-scan, hiding every later <meta>
     r.rule("C06.15", "no StopIteration / ValueError leaves ContentAttrParser.parse (it would end the pre-scan instead of moving to the next attribute)", floor=1)
@@ -706,15 +707,88 @@ def label_decoding(ctx):
             detail={"decode": norm(d)})
 
 
+def decoder_end_of_input(ctx, rid="C06.19"):
+    """C06.19: the bytes are decoded piecewise, so the decoder has to be *told* when the input has ended; otherwise an incomplete
+    multi-byte sequence at the very end stays in its buffer and vanishes, where decoding the same bytes in one go (and the
+    Encoding standard's decoders at end-of-stream) yield U+FFFD.  A `codecs.StreamReader` cannot be told: its read() calls
+    `self.decode(data, self.errors)` with no `final` argument (read off the standard library's source).  Accepted: a reader
+    whose read() passes a `final` flag derived from "the source returned nothing" to an incremental decoder."""
+    from .c04 import _stdlib_source
+    r = ctx.r
+    r.rule(rid, "the decoder is told when the input ends (an incomplete trailing sequence is replaced, not dropped)", floor=1)
+    mod = ctx.repo.module(REL)
+    rs = ctx.repo.func(REL, "HTMLBinaryInputStream.reset")
+    ds = [n for n in ast.walk(rs.node) if isinstance(n, ast.Assign) and attr_chain(n.targets[0]) == ["self", "dataStream"]]
+    if len(ds) != 1 or not isinstance(ds[0].value, ast.Call):
+        r.idiom(rid, False, "decoder-end-of-input", rs.where, "HTMLBinaryInputStream.reset: the construction of dataStream was not found")
+        return
+    call = ds[0].value
+    uses_streamreader = norm(call.func).endswith(".streamreader") or "getreader" in norm(call.func)
+    # does codecs.StreamReader.read pass a final flag?
+    sr_final = None
+    tree = _stdlib_source("codecs")
+    if tree is not None:
+        for c in ast.walk(tree):
+            if isinstance(c, ast.ClassDef) and c.name == "StreamReader":
+                for m in c.body:
+                    if isinstance(m, ast.FunctionDef) and m.name == "read":
+                        decs = [x for x in ast.walk(m) if isinstance(x, ast.Call) and norm(x.func) == "self.decode"]
+                        sr_final = any(len(x.args) > 2 or any(k.arg == "final" for k in x.keywords) for x in decs) if decs else None
+    ok = False
+    never_final = False
+    cls = mod.classes.get(call.func.id) if isinstance(call.func, ast.Name) else None
+    detail = {"reader": norm(call.func), "stdlib_streamreader_passes_final": sr_final}
+    if cls is not None:
+        rd = cls.find_method("read")
+        if rd is not None:
+            decs = [x for x in ast.walk(rd.node) if isinstance(x, ast.Call) and isinstance(x.func, ast.Attribute) and x.func.attr == "decode"]
+            never_final = bool(decs) and all(len(x.args) == 1 and not x.keywords for x in decs) and \
+                not any(isinstance(x, ast.Call) and isinstance(x.func, ast.Attribute) and x.func.attr == "decode" and (len(x.args) > 1 or x.keywords)
+                        for x in ast.walk(cls.node))
+            for x in ast.walk(rd.node):
+                if isinstance(x, ast.Call) and isinstance(x.func, ast.Attribute) and x.func.attr == "decode" and \
+                        (len(x.args) == 2 or any(k.arg == "final" for k in x.keywords)):
+                    fin = x.args[1] if len(x.args) == 2 else next(k.value for k in x.keywords if k.arg == "final")
+                    src = x.args[0]
+                    # final <=> nothing was read: `not data` / `data == b""` / `len(data) == 0`
+                    t = norm(fin)
+                    ok = isinstance(src, ast.Name) and t in ("not %s" % src.id, "%s == b''" % src.id, "len(%s) == 0" % src.id)
+            init = cls.find_method("__init__")
+            ok = ok and init is not None and "incrementaldecoder" in norm(init.node)
+    r.idiom(rid, ok, "decoder-end-of-input", "%s:%d" % (REL, ds[0].lineno), "how the decoder learns that the input has ended was not recognised (%s)" % norm(call)[:80],
+            wrong=[(never_final, "the reader's decode() calls never pass final=True: an incomplete multi-byte sequence at the end of the input "
+                                 "stays in the decoder and is dropped (parse(b'<p>caf\\xc3', transport_encoding='utf-8') gives <p>caf)"),
+                   (uses_streamreader and sr_final is False,
+                    "bytes are decoded through a codecs.StreamReader, whose read() never tells the decoder that the input has ended: an "
+                    "incomplete multi-byte sequence at the end of the input is dropped -- parse(b'<p>caf\\xc3', transport_encoding='utf-8') "
+                    "gives <p>caf, the same bytes decoded with the reported encoding give <p>caf\\ufffd (likewise UTF-16 input with an odd "
+                    "number of bytes)")],
+            detail=detail)
+
+
 def decoder_rule(ctx, rid):
     r = ctx.r
     repo = ctx.repo
     rs = repo.func(REL, "HTMLBinaryInputStream.reset")
     ds = [n for n in ast.walk(rs.node) if isinstance(n, ast.Assign) and attr_chain(n.targets[0]) == ["self", "dataStream"]]
     dtxt = norm(ds[0].value) if len(ds) == 1 else ""
-    r.idiom(rid, len(ds) == 1 and dtxt.startswith("self.charEncoding[0].codec_info.streamreader(self.rawStream"),
+    ok = len(ds) == 1 and dtxt.startswith("self.charEncoding[0].codec_info.streamreader(self.rawStream")
+    registry = False
+    if len(ds) == 1 and not ok and isinstance(ds[0].value, ast.Call) and isinstance(ds[0].value.func, ast.Name):
+        # a reader class of this module that is handed the raw stream and the resolved encoding's codec_info, and builds its
+        # decoder from that codec_info
+        cls = repo.module(REL).classes.get(ds[0].value.func.id)
+        args = [norm(a) for a in ds[0].value.args]
+        init = cls.find_method("__init__") if cls else None
+        if init is not None and "self.rawStream" in args and "self.charEncoding[0].codec_info" in args:
+            pname = init.params()[1:][args.index("self.charEncoding[0].codec_info")]
+            built = [c for c in ast.walk(init.node) if isinstance(c, ast.Call) and isinstance(c.func, ast.Attribute) and
+                     c.func.attr in ("incrementaldecoder", "streamreader") and norm(c.func.value) == pname]
+            registry = any("codecs." in norm(c.func) for c in ast.walk(cls.node) if isinstance(c, ast.Call))
+            ok = len(built) == 1 and not registry
+    r.idiom(rid, ok,
             "decoder", rs.where, "the decoder is not built from self.charEncoding[0] over rawStream",
-            wrong=[("codecs.getreader(" in dtxt or "codecs.lookup(" in dtxt or "codecs.getincrementaldecoder(" in dtxt,
+            wrong=[("codecs.getreader(" in dtxt or "codecs.lookup(" in dtxt or "codecs.getincrementaldecoder(" in dtxt or registry,
                     "the decoder is looked up in Python's codec registry by name (`%s`) instead of being taken from the encoding object that "
                     "the label resolved to: labels the Encoding standard knows but Python does not (windows-874, x-user-defined, "
                     "iso-8859-8-i, ...) raise LookupError and CJK encodings decode differently from what documentEncoding reports" % dtxt[:70])])
@@ -951,6 +1025,8 @@ def mutants():
         T("prescan-meta-duplicates-counted", REL, "            if attr[0] in attrNames:\n                continue\n", "", "C06.18"),
         T("prescan-meta-content-overrides-charset", REL, "                if (tentativeEncoding is not None and\n                        charset is None and not charsetFailed):", "                if tentativeEncoding is not None:", "C06.18"),
         T("prescan-meta-pragma-not-needed", REL, "        if needPragma is None or (needPragma and not gotPragma) or charset is None:", "        if needPragma is None or charset is None:", "C06.18"),
+        T("decoder-never-final", REL, "            text = self.decoder.decode(data, not data)", "            text = self.decoder.decode(data)", "C06.19"),
+        T("decoder-streamreader-again", REL, "DecodingReader(self.rawStream, self.charEncoding[0].codec_info, 'replace')", "self.charEncoding[0].codec_info.streamreader(self.rawStream, 'replace')", "C06.19"),
         T("content-charset-search-gives-up", REL, "            while True:\n                self.data.jumpTo(b\"charset\")\n                self.data.position += 1\n                self.data.skip()\n                if self.data.currentByte == b\"=\":\n                    break\n",
           "            self.data.jumpTo(b\"charset\")\n            self.data.position += 1\n            self.data.skip()\n            if not self.data.currentByte == b\"=\":\n                return None\n", "C06.14"),
         T("late-meta-case-sensitive", "html5parser.py", "                  attributes[\"http-equiv\"].lower() == \"content-type\"):", "                  attributes[\"http-equiv\"] == \"content-type\"):", "C06.7"),
